@@ -267,6 +267,49 @@ var c10KindsByState = map[string][]string{
 	"exited":      {"rr", "rr", "rpod", "rpod", "reni", "reni", "gone", "gone", "gone", "delete", "gccr"},
 }
 
+var c10Bundles = [][2]uint16{
+	{0, c10AFCreate}, {c10CFCreate0, 0}, {c10CFCreate1, 0},
+	{c10CFDelete0, c10AFCreate}, {c10CFDelete1, c10AFCreate}, {c10CFDelete0 | c10CFDelete1, c10AFCreate},
+	{c10CFCreate1 | c10CFDelete0, 0}, {c10CFCreate0 | c10CFDelete1, 0}, {0, c10AFCreate | c10AFGetENI},
+}
+
+// raw op: drawn independently of the history so that rapid can delete any element of the
+// list while shrinking; the kind is chosen afterwards from the table of the pod's
+// generation-time state
+type c10RawOp struct {
+	P, KI, N int
+	CF, AF   uint16
+	Conflict bool
+	Mid      *c10Mid
+}
+
+func c10GenRawOp(np int, pct int) *rapid.Generator[c10RawOp] {
+	return rapid.Custom(func(t *rapid.T) c10RawOp {
+		r := c10RawOp{P: rapid.IntRange(0, np-1).Draw(t, "p"), KI: rapid.IntRange(0, 63).Draw(t, "ki"), N: rapid.IntRange(0, c10Nodes-1).Draw(t, "n")}
+		r.CF = c10GenBits(t, "cf", c10CFBits, pct)
+		r.AF = c10GenBits(t, "af", c10AFBits, pct)
+		if pct > 0 && rapid.IntRange(0, 99).Draw(t, "bundle?") < pct {
+			// faults between interface creation and record creation (rollback), alone or
+			// together with a failing rollback delete
+			b := rapid.SampledFrom(c10Bundles).Draw(t, "bundle")
+			r.CF |= b[0]
+			r.AF |= b[1]
+		}
+		if r.AF&(c10AFUpdate|c10AFStatusUpdate) != 0 {
+			r.Conflict = rapid.Bool().Draw(t, "conflict")
+		}
+		if rapid.IntRange(0, 11).Draw(t, "mid?") == 0 {
+			m := &c10Mid{K: rapid.SampledFrom([]string{"gone", "gone", "delete", "exit", "create", "rpod", "reni"}).Draw(t, "midk")}
+			m.P = rapid.IntRange(0, np-1).Draw(t, "midp")
+			if m.K == "create" {
+				m.N = rapid.IntRange(0, c10Nodes-1).Draw(t, "midn")
+			}
+			r.Mid = m
+		}
+		return r
+	})
+}
+
 func c10GenLoop(t *rapid.T) c10Scenario {
 	s := c10Scenario{Settle: true}
 	s.Trunk = rapid.Bool().Draw(t, "trunk")
@@ -277,23 +320,27 @@ func c10GenLoop(t *rapid.T) c10Scenario {
 	np := rapid.IntRange(1, vt.Scale(3, 4)).Draw(t, "npods")
 	state := make([]string, np)
 	for i := 0; i < np; i++ {
-		nn := rapid.IntRange(1, 2).Draw(t, "nnets")
-		ps := c10PodSpec{}
-		for j := 0; j < nn; j++ {
-			ps.Nets = append(ps.Nets, c10GenNet(t, true))
-		}
-		s.Pods = append(s.Pods, ps)
+		nets := rapid.SliceOfN(rapid.Custom(func(t *rapid.T) c10Net { return c10GenNet(t, true) }), 1, 2).Draw(t, "nets")
+		s.Pods = append(s.Pods, c10PodSpec{Nets: nets})
 		state[i] = "absent"
 	}
 	faulty := rapid.IntRange(0, 2).Draw(t, "faulty") // 0: no faults, 1: few, 2: many
 	pct := []int{0, 6, 20}[faulty]
-	nops := rapid.IntRange(1, vt.Scale(40, 60)).Draw(t, "nops")
-	for i := 0; i < nops; i++ {
-		op := c10Op{P: rapid.IntRange(0, np-1).Draw(t, "p")}
-		op.K = rapid.SampledFrom(c10KindsByState[state[op.P]]).Draw(t, "k")
+	// rapid's slices average about min+5 elements whatever the maximum is; several
+	// segments give histories of about 20 (thorough: 30) steps that still shrink to nothing
+	var raw []c10RawOp
+	for seg := 0; seg < vt.Scale(4, 6); seg++ {
+		raw = append(raw, rapid.SliceOfN(c10GenRawOp(np, pct), 0, 12).Draw(t, "ops")...)
+	}
+	if len(raw) == 0 {
+		raw = append(raw, c10GenRawOp(np, pct).Draw(t, "op"))
+	}
+	for _, r := range raw {
+		kinds := c10KindsByState[state[r.P]]
+		op := c10Op{P: r.P, K: kinds[r.KI%len(kinds)]}
 		switch op.K {
 		case "create":
-			op.N = rapid.IntRange(0, c10Nodes-1).Draw(t, "n")
+			op.N = r.N
 			state[op.P] = "alive"
 		case "gone":
 			state[op.P] = "absent"
@@ -304,18 +351,9 @@ func c10GenLoop(t *rapid.T) c10Scenario {
 		case "exit":
 			state[op.P] = "exited"
 		case "rpod", "reni", "gccr", "gcsec", "gcmem":
-			op.CF = c10GenBits(t, "cf", c10CFBits, pct)
-			op.AF = c10GenBits(t, "af", c10AFBits, pct)
-			if op.AF&(c10AFUpdate|c10AFStatusUpdate) != 0 {
-				op.Conflict = rapid.Bool().Draw(t, "conflict")
-			}
-			if op.K != "gccr" && rapid.IntRange(0, 11).Draw(t, "mid?") == 0 {
-				m := &c10Mid{K: rapid.SampledFrom([]string{"gone", "gone", "delete", "exit", "create", "rpod", "reni"}).Draw(t, "midk")}
-				m.P = rapid.IntRange(0, np-1).Draw(t, "midp")
-				if m.K == "create" {
-					m.N = rapid.IntRange(0, c10Nodes-1).Draw(t, "midn")
-				}
-				op.Mid = m
+			op.CF, op.AF, op.Conflict = r.CF, r.AF, r.Conflict
+			if op.K != "gccr" {
+				op.Mid = r.Mid
 			}
 		}
 		s.Ops = append(s.Ops, op)
@@ -490,12 +528,21 @@ func c10GenLoopFixed(t *rapid.T) c10Scenario {
 	return s
 }
 
-// Deterministic witness of candidate finding F-7 (guard C10-detaching-from-nonbind).
+// Deterministic witnesses of candidate finding F-7.
 func TestVerifC10KnownDetachingFromNonBind(t *testing.T) {
+	// pod created, record created (phase initial), pod gone before the attach, pod controller runs again
+	s := c10Scenario{Cards: 1, Pods: []c10PodSpec{{Nets: []c10Net{{Fixed: true, Strategy: "TTL", After: "10m"}}}},
+		Ops: []c10Op{{K: "create"}, {K: "rpod"}, {K: "gone"}, {K: "rpod"}}}
+	vt.Witness(t, "C10", c10KnownDetaching,
+		"podDelete on a fixed-IP record whose pod left before the attach finished moves it initial -> Detaching (likewise Binding -> Detaching), edges the documented machine does not have",
+		s, func(c *vt.Ctx, s c10Scenario) { c10RunOpt(c, s, true) })
+}
+
+func TestVerifC10KnownDetachingFromUnbind(t *testing.T) {
 	s := c10Scenario{Cards: 1, Pods: []c10PodSpec{{Nets: []c10Net{{Fixed: true, Strategy: "TTL", After: "10m"}}}},
 		Ops: []c10Op{{K: "create"}, {K: "rpod"}, {K: "reni"}, {K: "gone"}, {K: "rpod"}, {K: "reni"}, {K: "rpod"}}}
-	vt.Witness(t, "C10", c10KnownDetaching,
-		"podDelete on a fixed-IP record moves it to Detaching from phases other than Bind (here Unbind -> Detaching on a second reconcile of the deleted pod), an edge the documented machine does not have",
+	vt.Witness(t, "C10", c10KnownDetachingUnbind,
+		"a second reconcile of a deleted (or exited) fixed-IP pod moves its record Unbind -> Detaching (and the PodENI controller moves it back), an edge the documented machine does not have",
 		s, func(c *vt.Ctx, s c10Scenario) { c10RunOpt(c, s, true) })
 }
 
